@@ -28,7 +28,9 @@ SyntaxHeader(s) == Pack(U(s.ext, 16) \o Ones(2) \o U(s.ver, 5) \o B(s.cni)) \o <
 Inner(s) == (IF HasSyntax(s) THEN SyntaxHeader(s) ELSE <<>>) \o TableBody(s)
 SectionLength(s) == Len(Inner(s)) + 4
 NoCRC(s) == << s.tid >> \o Pack(B(s.ssi) \o B(s.priv) \o Ones(2) \o U(SectionLength(s), 12)) \o Inner(s)
-Section(s) == LET b == NoCRC(s) IN b \o Bytes4(Of(b))
+\* a section of a table the library recognises but does not decode (BAT, DIT, RST, SIT, ST, TDT): header and section_length only
+Opaque(s) == << s.tid >> \o Pack(B(s.ssi) \o B(s.priv) \o Ones(2) \o U(Len(s.raw), 12)) \o s.raw
+Section(s) == IF s.k = "opaque" THEN Opaque(s) ELSE LET b == NoCRC(s) IN b \o Bytes4(Of(b))
 CRCOf(s) == Of(NoCRC(s))
 UnitF(ptr, filler, secs, trail) == << ptr >> \o Fill(filler, ptr) \o Cat(secs, Section) \o Fill(255, trail)     \* the pointer filler bytes may hold anything
 Unit(ptr, secs, trail) == UnitF(ptr, 255, secs, trail)
